@@ -91,7 +91,8 @@ def deserialize_compact(
 # the application MUST ensure that the payload contains only the URL-safe
 # characters 'a'-'z', 'A'-'Z', '0'-'9', dash ('-'), underscore ('_'),
 # and tilde ('~')
-_re_urlsafe = re.compile("^[a-zA-Z0-9-_~]+$")
+# ("$" would also match before a line feed that ends the payload)
+_re_urlsafe = re.compile(r"[a-zA-Z0-9\-_~]+\Z")
 
 
 def __is_urlsafe_characters(s: bytes | str) -> bool:
